@@ -26,6 +26,7 @@ UNIT = dict(
         "HealthCheckConfigBuilder::build": dict(),
         "CacheLayer::new": dict(file="calayer"),
         "CacheConfigBuilder::new": dict(file="caconfig", rules=[("sub", "R6-name", r"String::from\(\"[^\"]*\"\)", "vx_wrap()", 1)]),
+        "CacheConfigBuilder::default@Default": dict(file="caconfig"),
         "CacheConfigBuilder::max_size": setter("caconfig"),
         "CacheConfigBuilder::ttl": setter("caconfig"),
         "CacheConfigBuilder::eviction_policy": setter("caconfig"),
@@ -35,6 +36,7 @@ UNIT = dict(
         "CacheConfigBuilder::on_miss": setter("caconfig", LISTEN),
         "CacheConfigBuilder::on_eviction": setter("caconfig", LISTEN),
         "SharedCacheConfigBuilder::new": dict(file="cashared", rules=[("sub", "R6-name", r"String::from\(\"[^\"]*\"\)", "vx_wrap()", 1), ("sub", "R16-phantom", r"_resp: std::marker::PhantomData,", "", 1)]),
+        "SharedCacheConfigBuilder::default@Default": dict(file="cashared"),
         "SharedCacheConfigBuilder::max_size": setter("cashared"),
         "SharedCacheConfigBuilder::ttl": setter("cashared"),
         "SharedCacheConfigBuilder::eviction_policy": setter("cashared"),
